@@ -264,6 +264,24 @@ def run_unit(unit, rec):
                 Rt = np.asarray(barycentric_dim_reduction(P * t, center=center))
                 if np.max(np.abs(Rt - R1)) > 1e-12:
                     _v(rec, "e", dict(sig, api="barycentric_dim_reduction", what="scale-invariance", variant=var), "chromatic reduction changes with the overall scale (t=%s)" % t, dict(n=n, center=center, t=t))
+            # totals within 1e-5 .. 1e-7 of one (float32-normalised data, chromaticities times 1 + 6e-6)
+            for t in (1.0 + 6e-6, 1.0 - 8e-6, 1.0 + 3e-7):
+                rec.trans()
+                Rt = np.asarray(barycentric_dim_reduction(Pn * t, center=center))
+                if np.max(np.abs(Rt - Y)) > 1e-12:
+                    _v(rec, "e", dict(sig, api="barycentric_dim_reduction", what="scale-invariance", variant=var), "chromatic reduction changes with the overall scale (t=%r, max dev %.3g)" % (t, np.max(np.abs(Rt - Y))), dict(n=n, center=center, t=t))
+            # integer-typed capture vectors (photon counts): same answers as the same numbers as floats
+            Pint = P[np.all(P == np.round(P), axis=1)].astype(np.int64)
+            if len(Pint):
+                rec.trans(4)
+                try:
+                    same = (np.array_equal(np.asarray(barycentric_dim_reduction(Pint, center=center)), np.asarray(barycentric_dim_reduction(Pint.astype(float), center=center)))
+                            and np.array_equal(np.asarray(dreye.barycentric_to_cartesian(Pint, center=center)), np.asarray(dreye.barycentric_to_cartesian(Pint.astype(float), center=center))))
+                except Exception as e:  # noqa
+                    same = False
+                rec.outcome("int-typed/%s" % ("same" if same else "differs"))
+                if not same:
+                    _v(rec, "e", dict(sig, api="barycentric_dim_reduction", what="int-typed", variant=var), "integer-typed capture vectors are converted differently from the same values as floats", dict(n=n, center=center, dtype="int"))
             if np.max(np.abs(R1 - Y)) > 1e-12:
                 _v(rec, "e", dict(sig, api="barycentric_dim_reduction", what="normalisation", variant=var), "chromatic reduction is not the conversion of the L1-normalised vector", dict(n=n, center=center))
         rec.sample(dict(kind="bary", n=n, points=len(Pn), example=Pn[3]), cap=1)
@@ -306,4 +324,19 @@ def run_unit(unit, rec):
                 if bad:
                     _v(rec, bad[0], dict(sig, api="cartesian_to_spherical", what=bad[1][:28], pointclass=pc), "%s (d=%d, x=%s)" % (bad[1], d, x.tolist()), dict(d=d, form=form, i=i), observed=dict(spherical=y, back=Xr[i]), expected=x,
                        script="import numpy as np, dreye\nX=np.array([%r])\nY=dreye.cartesian_to_spherical(X)\nprint(Y, dreye.spherical_to_cartesian(Y))\n" % (x.tolist(),))
+    # integer-typed inputs: lattice points as int arrays; integer spherical coordinates (radius 0..3, angles 0..3 / 0..6)
+    rec.path()
+    rec.trans(4)
+    Xi = X[np.all(X == np.round(X), axis=1)].astype(np.int64)
+    Yi = np.array([[(3 * i + j) % 4 if j < d - 1 else (5 * i + 2) % 7 for j in range(d)] for i in range(12)], dtype=np.int64)
+    for api, fn, arg in (("cartesian_to_spherical", dreye.cartesian_to_spherical, Xi), ("spherical_to_cartesian", dreye.spherical_to_cartesian, Yi)):
+        try:
+            ri, rf = np.asarray(fn(arg), dtype=float), np.asarray(fn(arg.astype(float)), dtype=float)
+            same = ri.shape == rf.shape and bool(np.all(np.abs(ri - rf) <= 1e-12 * (1 + np.abs(rf))))
+        except Exception as e:  # noqa
+            same = False
+        rec.outcome("sphere-int-typed/%s" % ("same" if same else "differs"))
+        if not same:
+            _v(rec, "h", dict(sig, api=api, what="int-typed", pointclass="lattice"), "%s: integer-typed coordinates are converted differently from the same values as floats" % api, dict(d=d, dtype="int"),
+               script="import numpy as np, dreye\nA = np.array(%r)\nprint(dreye.%s(A), dreye.%s(A.astype(float)))\n" % (arg[:4].tolist(), api, api))
     rec.sample(dict(kind="sphere", d=d, points=len(X), example=X[5]), cap=1)
